@@ -53,12 +53,14 @@ PROPS = {
                 {"name": "c01_history", "id": "c01_history_1key_3ops", "covers": ["settled", "settled_value", "settled_removed"],
                  "quick": {"env": {"C01_KEYS": 1, "C01_OPS": 3}, "max_paths": 100000, "timeout": 900},
                  "thorough": {"env": {"C01_KEYS": 3, "C01_OPS": 2}, "max_paths": 1000000, "timeout": 3000}},
+                {"name": "c01_history", "id": "c01_history_1key_3ops_mutable_kind", "covers": ["settled", "settled_value", "settled_removed"],
+                 "quick": {"env": {"C01_KEYS": 1, "C01_OPS": 3, "C01_NONCHUNK_FIRST": 1}, "max_paths": 100000, "timeout": 900}},
                 {"name": "c01_sizes", "covers": ["settled"], "quick": {"max_paths": 1000, "timeout": 900}},
             ]},
         ],
         "assumptions": STORE_ASSUMPTIONS + ["disk writes succeed (write failures are RemoveFailedLocalRecord's subject, not part of this claim)",
                                             "cache timestamps are a symbolic non-decreasing 64-bit clock (equal timestamps allowed)"],
-        "bounds": {"quick": "2 keys x 2 operations and 1 key x 3 operations from {put v0/v1, remove, get}, cache size 1..2, every interleaving of background tasks/notifications between operations",
+        "bounds": {"quick": "2 keys x 2 operations and 1 key x 3 operations (once on a chunk, once on a mutable kind) from {put v0/v1, remove, get}, cache size 1..2, every interleaving of background tasks/notifications between operations",
                    "thorough": "2 keys x 3 operations and 3 keys x 2 operations"},
         "outside": ["longer histories, more keys", "real disk and OS caching", "same-key task reordering (outside the property's wording)", "capacity effects (C10)"],
     },
